@@ -270,6 +270,7 @@ type env struct {
 	wallets map[string]module.Wallet  // users
 	addr    map[string]module.Address // every abstract account
 	name    map[string]string         // address string -> abstract name
+	alias   map[string]module.Address // twins: addresses of the other form for the id of an existing account
 }
 
 const treasuryAddr = "hx1000000000000000000000000000000000000000"
@@ -349,6 +350,15 @@ func newEnv(cfg chainCfg, users, scores, syncs, ghosts []string, salt string) (*
 		e.addr[c] = common.NewContractAddress(id)
 	}
 	e.addr["t"] = common.MustNewAddressFromString(treasuryAddr)
+	// "xh": the account-form (hx) address with the id of contract x; "ac": the contract-form (cx)
+	// address with the id of user a. They address existing accounts, so they are not projected.
+	e.alias = map[string]module.Address{}
+	if x, ok := e.addr["x"]; ok {
+		e.alias["xh"] = common.NewAccountAddress(x.ID())
+	}
+	if a, ok := e.addr["a"]; ok {
+		e.alias["ac"] = common.NewContractAddress(a.ID())
+	}
 	for n, a := range e.addr {
 		e.name[a.String()] = n
 	}
@@ -554,3 +564,12 @@ func valOf(ws state.WorldSnapshot, a module.Address, key string) ([]byte, error)
 }
 
 var _ = scoredb.NewVarDB
+
+// addrOf resolves an abstract account or twin name.
+func (e *env) addrOf(n string) (module.Address, bool) {
+	if a, ok := e.addr[n]; ok {
+		return a, true
+	}
+	a, ok := e.alias[n]
+	return a, ok
+}
